@@ -14,7 +14,29 @@ SEPS = ["a", "aa", "aba", "ab", "\u20ac", "\u20ac\u20ac", ",", ",,", "\U0001f600
 TRIM_WS = " \t\n\f\r\u0085\u00a0"
 
 
+def lookalikes(c):
+    """Code points that share the low byte / low 16 bits with the ASCII character c, and neighbours that share UTF-8 lead bytes."""
+    o = ord(c)
+    return [chr(o + 0x100), chr(o + 0x2000), chr(o + 0x4E00), chr(o + 0x10000), chr(o + 0x80), chr(o + 0xFF00)]
+
+
+_LOOK = None          # set per case family by with_lookalikes()
+
+
+def with_lookalikes(rng):
+    """Every 6th case draws its strings from {c, look-alikes of c, one multi-byte neighbour pair}: a function that compares
+    code points through a truncated or byte-wise representation confuses them."""
+    global _LOOK
+    if rng.random() < 0.17:
+        c = rng.choice(["a", "b", "x", " ", "\n", "\t", "-", ",", "A", "z", "0", "1"])
+        _LOOK = [c, c] + lookalikes(c) + rng.choice([["\u00e9", "\u00e8"], ["\u20ac", "\u20ad"], ["\U0001f600", "\U0001f601"], []])
+    else:
+        _LOOK = None
+
+
 def rs(rng, maxn=8):
+    if _LOOK is not None:
+        return "".join(rng.choice(_LOOK) for _ in range(rng.randint(0, maxn)))
     return "".join(rng.choice(ALPHA) for _ in range(rng.randint(0, maxn)))
 
 
@@ -40,8 +62,9 @@ def jsonnet_slice(s, a, b, st):
 def gen_cases(rng, n):
     J = jstr
     for _ in range(n):
+        with_lookalikes(rng)
         s = rs(rng, rng.choice([0, 1, 3, 6, 10, 14]))
-        c = rng.choice(SEPS)
+        c = rng.choice(SEPS) if _LOOK is None else rng.choice(_LOOK[:3] + [_LOOK[0] * 2])
         t = rs(rng, 3)
         L = len(s)
         i = rng.randint(-3, L + 3)
@@ -221,7 +244,8 @@ def run(tier, seed):
     n = 40_000 if quick else 3_000_000
     for a in common.pmap(shard, [(seed * 211 + i, n // 64) for i in range(64)]):
         total.merge(a)
-    rule = ("strings over a mixed alphabet (ASCII, 2-/3-/4-byte characters, combining marks, separators that are "
+    rule = ("strings over a mixed alphabet (ASCII, 2-/3-/4-byte characters, combining marks, every 6th case over an ASCII character and "
+            "the code points sharing its low byte / low 16 bits plus neighbours sharing UTF-8 lead bytes, separators that are "
             "substrings/overlaps of each other, empty) x index/len/limit arguments incl. negative, fractional, 2^53, "
             "1e300; oracle = Python str operations (code-point based) for ~60 function families and identities "
             "(join(split) == s, findSubstr = all overlapping positions, maximal strip, first/last n separators). "
